@@ -5,6 +5,7 @@ import LogosModel.Interp
 import LogosModel.Utf8Closed
 import LogosModel.Equiv
 import LogosModel.Priority
+import LogosModel.Attr
 import Std.Data.HashSet
 /-!
 # Line-protocol driver (untrusted glue: parsing, closure search, printing)
@@ -294,6 +295,39 @@ def answer (c : Case) (q : List String) : String :=
   | ["NULLABLE"] => " ".intercalate (c.hirs.toList.map fun h => if h.hasLook then "L" else if nullable h.lower then "1" else "0")
   | _ => "BADQ"
 
+/-! ## C18: attribute-argument tokenizer model -/
+
+def attrTok (s : String) : Option Attr.Tok :=
+  match s.splitOn ":" with
+  | ["i", n] => some (.ident n)
+  | ["c"] => some (.punct ',' true)
+  | ["e"] => some (.punct '=' true)
+  | ["p", n] => some (.punct (Char.ofNat n.toNat!) true)
+  | ["j", n] => some (.punct (Char.ofNat n.toNat!) false)
+  | ["l", n] => some (.lit n.toNat!)
+  | ["g", n] => some (.group n.toNat!)
+  | _ => none
+
+def attrErrStr : Attr.Err → String
+  | .unexpectedToken => "unexpected"
+  | .positionalNotFirst => "positional"
+  | .badPriority => "badprio"
+  | .dupPriority => "dupprio"
+  | .badCallback => "badcb"
+  | .dupCallback => "dupcb"
+  | .badIgnore => "badignore"
+  | .badAllowGreedy => "badgreedy"
+  | .dupAllowGreedy => "dupgreedy"
+  | .unknownArg _ => "unknown"
+  | .expectedForm n => "form-" ++ n
+
+def attrAnswer (flag : String) (toks : List String) : String :=
+  let ts := toks.filterMap attrTok
+  if ts.length != toks.length then "BADTOK" else
+  let d := Attr.parseArgs (flag == "1") ts
+  let errs := ",".intercalate (d.errors.map attrErrStr)
+  s!"prio={d.priority.isSome} cb={d.callback.isSome} ag={d.allowGreedy.isSome} ign={d.ignoreGroups.length} errs={errs}"
+
 partial def run (h : IO.FS.Stream) (out : IO.FS.Stream) (cur : Case) : IO Unit := do
   let line ← h.getLine
   if line.isEmpty then return ()
@@ -318,6 +352,9 @@ partial def run (h : IO.FS.Stream) (out : IO.FS.Stream) (cur : Case) : IO Unit :
   | "GERR" :: _ => run h out { cur with gerr := cur.gerr + 1 }
   | "CB" :: i :: k :: _ => run h out { cur with cbs := cur.cbs.setIfInBounds i.toNat! k.toNat! }
   | "ERRCB" :: v :: _ => run h out { cur with errCb := v == "1" }
+  | "Q" :: "ATTR" :: flag :: toks =>
+    out.putStrLn s!"{cur.name} ATTR {flag} {" ".intercalate toks} : {attrAnswer flag toks}"
+    run h out cur
   | "Q" :: q =>
     out.putStrLn s!"{cur.name} {" ".intercalate q} : {answer cur q}"
     run h out cur
